@@ -388,7 +388,15 @@ class Interp:
         pass  # closures share the enclosing environment by reference here
 
     def st_Import(self, st, env, mi):
-        pass
+        # a local `import a.b [as c]`: the name is bound in the function's namespace
+        for a in st.names:
+            local = a.asname or a.name.split('.')[0]
+            target = a.name if a.asname else a.name.split('.')[0]
+            kind = self.repo._classify(target) if hasattr(self.repo, '_classify') else ('ext', target)
+            if kind[0] == 'module' and kind[1] in self.repo.modules:
+                env[local] = ModuleRef(self.repo.modules[kind[1]])
+            else:
+                env[local] = ExtRef(target)
 
     def st_ImportFrom(self, st, env, mi):
         for a in st.names:
@@ -868,6 +876,10 @@ class Interp:
             return cache[key]
         if name in _PY_BUILTINS:
             return ExtRef('builtins.' + name)
+        if name == '__name__':
+            return 'scippneutron' + ('.' + mi.name if mi.name else '')
+        if name == '__file__':
+            return mi.path
         raise AnalysisError(f'unresolved name {name!r} at {self.where(node)}')
 
     def resolved(self, r, name):
